@@ -8,6 +8,7 @@ use cao_lang::collections::bounded_stack::BoundedStack;
 use cao_lang::collections::handle_table::{Handle, HandleTable};
 use cao_lang::collections::hash_map::CaoHashMap;
 use cao_lang::collections::value_stack::ValueStack;
+use cao_lang::compiler::Module;
 use cao_lang::prelude::*;
 use std::collections::HashMap;
 
@@ -362,6 +363,196 @@ fn run_object_laws(ops: &[Op]) {
     }
 }
 
+
+// ---------------------------------------------------------------- name resolution (C08): module trees
+// The ops build a module tree, pick a caller function and a call name; the real compiler + VM are compared with
+// the lookup order the property documents: absolute dotted path, then the caller's own module, then the caller
+// module's imports (function import, then module-prefix import; leading `super.` segments walk up).
+// Every function returns its own id, so the function that ran is observable.
+#[derive(Default, Clone)]
+struct MTree { fns: Vec<(String, i64)>, subs: Vec<(String, MTree)>, imports: Vec<String> }
+
+const FN_NAMES: [&str; 4] = ["f", "g", "h", "xsuper"];
+const MOD_NAMES: [&str; 4] = ["a", "b", "xsuper", "f"];
+const ODD_NAMES: [&str; 6] = ["", "a.b", "super", "f g", "std", "a-b"];
+
+fn mt_at<'a>(root: &'a mut MTree, path: &[usize]) -> &'a mut MTree {
+    let mut m = root;
+    for i in path { m = &mut m.subs[*i].1; }
+    m
+}
+fn seg(k: u64) -> &'static str { let k = k as usize % 7; if k < 4 { MOD_NAMES[k] } else { FN_NAMES[k - 4] } }
+fn path_str(k: u64, n: u64) -> String {
+    let mut k = k; let mut out = Vec::new();
+    for _ in 0..n { out.push(seg(k)); k /= 7; }
+    out.join(".")
+}
+fn name_valid(n: &str) -> bool { !n.is_empty() && n != "super" && n.chars().all(|c| c.is_alphanumeric() || c == '_') }
+
+struct Flat { table: HashMap<String, i64> }
+fn mt_check(m: &MTree, ns: &mut Vec<String>, flat: &mut Flat, is_root: bool) -> Result<(), String> {
+    // duplicate module names (the root also holds the injected `std`)
+    let mut seen = std::collections::HashSet::new();
+    if is_root { seen.insert("std".to_string()); }
+    for (n, _) in &m.subs { if !seen.insert(n.clone()) { return Err(format!("duplicate module {n}")); } }
+    // imports: `x.y.name`, last segments pairwise different
+    let mut keys = std::collections::HashSet::new();
+    for i in &m.imports {
+        match i.rsplit_once('.') { None => return Err(format!("bad import {i}")), Some((_, k)) => if !keys.insert(k.to_string()) { return Err(format!("ambiguous import {i}")); } }
+    }
+    for (n, id) in &m.fns {
+        if !name_valid(n) { return Err(format!("bad function name {n:?}")); }
+        let full = if ns.is_empty() { n.clone() } else { format!("{}.{}", ns.join("."), n) };
+        if flat.table.insert(full.clone(), *id).is_some() { return Err(format!("duplicate function {full}")); }
+    }
+    for (n, sub) in &m.subs {
+        if !name_valid(n) { return Err(format!("bad module name {n:?}")); }
+        ns.push(n.clone());
+        mt_check(sub, ns, flat, false)?;
+        ns.pop();
+    }
+    Ok(())
+}
+/// leading `super.` segments of an import and the rest
+fn strip_supers(alias: &str) -> (usize, &str) {
+    let mut d = 0; let mut rest = alias;
+    while let Some(r) = rest.strip_prefix("super.") { d += 1; rest = r; }
+    (d, rest)
+}
+fn mt_resolve(flat: &Flat, ns: &[String], imports: &[String], name: &str) -> Result<i64, String> {
+    let dotted = |ns: &[String], n: &str| if ns.is_empty() { n.to_string() } else { format!("{}.{}", ns.join("."), n) };
+    if let Some(id) = flat.table.get(name) { return Ok(*id); }
+    if let Some(id) = flat.table.get(&dotted(ns, name)) { return Ok(*id); }
+    let import_for = |key: &str| imports.iter().find(|i| i.rsplit_once('.').map(|x| x.1) == Some(key));
+    if let Some(alias) = import_for(name) {
+        let (d, rest) = strip_supers(alias);
+        if d > ns.len() { return Err("too many supers".into()); }
+        if let Some(id) = flat.table.get(&dotted(&ns[..ns.len() - d], rest)) { return Ok(*id); }
+    }
+    if let Some((prefix, suffix)) = name.split_once('.') {
+        if let Some(alias) = import_for(prefix) {
+            let (d, rest) = strip_supers(alias);
+            if d > ns.len() { return Err("too many supers".into()); }
+            if let Some(id) = flat.table.get(&dotted(&ns[..ns.len() - d], &format!("{rest}.{suffix}"))) { return Ok(*id); }
+        }
+    }
+    Err(format!("{name} resolves to nothing"))
+}
+fn mt_to_module(m: &MTree, bodies: &HashMap<i64, Card>) -> Module {
+    Module {
+        imports: m.imports.clone(),
+        functions: m.fns.iter().map(|(n, id)| {
+            let body = bodies.get(id).cloned().unwrap_or_else(|| Card::return_card(Card::scalar_int(*id)));
+            (n.clone(), Function::default().with_cards(vec![body]))
+        }).collect(),
+        submodules: m.subs.iter().map(|(n, s)| (n.clone(), mt_to_module(s, bodies))).collect(),
+    }
+}
+fn run_name_resolution(ops: &[Op], odd_names: bool) {
+    let last = ops.len() - 1;
+    let mut root = MTree::default();
+    root.fns.push(("main".into(), 1000));
+    let mut path: Vec<usize> = vec![];
+    let mut next_id = 1i64;
+    // caller = (module path, function index); None = main
+    let mut caller: Option<(Vec<usize>, usize)> = None;
+    let mut call_name = String::from("f");
+    // 0: call_name as generated; 1: the last segment of one of the caller module's imports; 2: that segment . another
+    let mut call_mode = 0u8;
+    let mut call_k = 0u64;
+    for o in ops {
+        let code = if odd_names { o.0 % 8 } else { o.0 % 6 };
+        match code {
+            0 => { let m = mt_at(&mut root, &path); m.fns.push((FN_NAMES[o.1 as usize % 4].into(), next_id)); next_id += 1; }
+            1 => { let m = mt_at(&mut root, &path); if m.subs.len() < 4 && path.len() < 4 { m.subs.push((MOD_NAMES[o.1 as usize % 4].into(), MTree::default())); path.push(m.subs.len() - 1); } }
+            2 => { path.pop(); }
+            3 => {
+                let supers = [0usize, 0, 1, 1, 2, 3][(o.1 % 6) as usize];
+                let body = if o.2 < 0 { seg(o.1 / 4).to_string() } else { path_str(o.1 / 4, 1 + (o.2 as u64 % 2)) };
+                let mut imp = if o.2 < 0 && supers == 0 { body } else { format!("{}{}", "super.".repeat(supers), body) };
+                if o.2 >= 40 {
+                    // an import that reaches a function (or its module) that exists, relative to the current module
+                    let mut all: Vec<Vec<String>> = vec![];
+                    fn walk(m: &MTree, ns: &mut Vec<String>, all: &mut Vec<Vec<String>>) {
+                        for (n, _) in &m.fns { let mut p = ns.clone(); p.push(n.clone()); all.push(p); }
+                        for (n, s) in &m.subs { ns.push(n.clone()); walk(s, ns, all); ns.pop(); }
+                    }
+                    walk(&root, &mut vec![], &mut all);
+                    let mut cur: Vec<String> = vec![]; { let mut m = &root; for i in &path { cur.push(m.subs[*i].0.clone()); m = &m.subs[*i].1; } }
+                    let mut target = all[(o.1 / 6) as usize % all.len()].clone();
+                    if o.2 >= 70 && target.len() > 1 { target.pop(); }            // import the module, not the function
+                    let common = cur.iter().zip(target.iter()).take_while(|(a, b)| a == b).count().min(target.len() - 1);
+                    let ups = cur.len() - common + if o.2 % 10 == 9 { 1 } else { 0 };
+                    imp = format!("{}{}", "super.".repeat(ups), target[common..].join("."));
+                }
+                mt_at(&mut root, &path).imports.push(imp);
+            }
+            4 => { let m = mt_at(&mut root, &path); if !m.fns.is_empty() && !(path.is_empty() && m.fns.len() == 1) { caller = Some((path.clone(), m.fns.len() - 1)); } }
+            5 => {
+                call_mode = if o.2 < 30 { 0 } else if o.2 < 65 { 1 } else { 2 };
+                call_k = o.1;
+                call_name = path_str(o.1, 1 + (o.2.unsigned_abs() % 3));
+            }
+            6 => { let m = mt_at(&mut root, &path); m.fns.push((ODD_NAMES[o.1 as usize % 6].into(), next_id)); next_id += 1; }
+            _ => { let m = mt_at(&mut root, &path); if m.subs.len() < 4 && path.len() < 4 { m.subs.push((ODD_NAMES[o.1 as usize % 6].into(), MTree::default())); path.push(m.subs.len() - 1); } }
+        }
+    }
+    // ---- the reference answer
+    let mut flat = Flat { table: HashMap::new() };
+    let checked = mt_check(&root, &mut vec![], &mut flat, true);
+    let (caller_ns, caller_id, caller_imports): (Vec<String>, i64, Vec<String>) = match &caller {
+        None => (vec![], 1000, root.imports.clone()),
+        Some((p, fi)) => {
+            let mut ns = vec![]; let mut m = &root;
+            for i in p { ns.push(m.subs[*i].0.clone()); m = &m.subs[*i].1; }
+            (ns, m.fns[*fi].1, m.imports.clone())
+        }
+    };
+    if call_mode > 0 && !caller_imports.is_empty() {
+        // mostly the import added last (the targeted one), otherwise any
+        let imp = if call_k % 4 != 0 { caller_imports.last().unwrap() } else { &caller_imports[(call_k as usize / 4) % caller_imports.len()] };
+        let last = imp.rsplit('.').next().unwrap_or("");
+        call_name = if call_mode == 1 { last.to_string() } else { format!("{}.{}", last, seg(call_k / 3)) };
+    }
+    let expected: Result<i64, String> = match &checked {
+        Err(e) => Err(e.clone()),
+        Ok(()) => mt_resolve(&flat, &caller_ns, &caller_imports, &call_name),
+    };
+    // ---- the real compiler and VM
+    let mut bodies = HashMap::new();
+    if caller_id == 1000 {
+        bodies.insert(1000, Card::set_global_var("g", Card::call_function(call_name.clone(), vec![])));
+    } else {
+        let (p, fi) = caller.clone().unwrap();
+        let mut m = &root; for i in &p { m = &m.subs[*i].1; }
+        let caller_path = if caller_ns.is_empty() { m.fns[fi].0.clone() } else { format!("{}.{}", caller_ns.join("."), m.fns[fi].0) };
+        bodies.insert(1000, Card::set_global_var("g", Card::call_function(caller_path, vec![])));
+        bodies.insert(caller_id, Card::return_card(Card::call_function(call_name.clone(), vec![])));
+    }
+    let module = mt_to_module(&root, &bodies);
+    let compiled = std::panic::catch_unwind(|| compile(module, None));
+    let describe = || format!("call {:?} from {} (namespace {:?}, imports {:?})", call_name, if caller_id == 1000 { "main".to_string() } else { format!("function #{caller_id}") }, caller_ns, caller_imports);
+    let compiled = match compiled {
+        Err(_) => fail("name_resolution", ops, last, format!("the compiler panicked; expected {:?}; {}", expected, describe())),
+        Ok(c) => c,
+    };
+    match (&expected, compiled) {
+        (Err(_), Err(_)) => {}
+        (Err(e), Ok(_)) => fail("name_resolution", ops, last, format!("compiled, but must be a compilation error: {e}; {}", describe())),
+        (Ok(id), Err(e)) => fail("name_resolution", ops, last, format!("compilation error {:?}, but the call designates exactly function #{id}; {}", e.payload, describe())),
+        (Ok(id), Ok(program)) => {
+            // a call that designates its own caller (or main) recurses forever: only the compile result is compared
+            if *id == caller_id || *id == 1000 { return; }
+            let mut vm = Vm::new(()).unwrap().with_max_iter(10_000);
+            if let Err(e) = vm.run(&program) { fail("name_resolution", ops, last, format!("run failed with {:?}, expected function #{id} to run; {}", e.payload, describe())); }
+            let g = vm.read_var_by_name("g", &program.variables);
+            if !matches!(g, Some(Value::Integer(x)) if x == *id) {
+                fail("name_resolution", ops, last, format!("the call ran a function returning {:?}, the lookup order designates function #{id}; {}", g, describe()));
+            }
+        }
+    }
+}
+
 fn dispatch(unit: &str, ops: &[Op], variant: u64) {
     VARIANT.store(variant, std::sync::atomic::Ordering::Relaxed);
     match unit {
@@ -371,6 +562,7 @@ fn dispatch(unit: &str, ops: &[Op], variant: u64) {
         "bounded_stack" => run_bounded_stack(ops, [0usize, 1, 2, 3, 5][(variant % 5) as usize]),
         "cao_lang_table" => run_table(ops),
         "object_laws" => run_object_laws(ops),
+        "name_resolution" => run_name_resolution(ops, variant % 4 == 3),
         _ => { eprintln!("unknown unit {unit}"); std::process::exit(2); }
     }
 }
@@ -391,7 +583,16 @@ fn main() {
     for it in 0..iters {
         let len = 1 + rng.below(if it % 4 == 0 { 40 } else { 12 }) as usize;
         let nkeys = 2 + rng.below(22);
-        let ops: Vec<Op> = (0..len).map(|_| (rng.below(16) as u8, rng.below(nkeys), (rng.below(100) as i64) - 3)).collect();
+        let mut ops: Vec<Op> = (0..len).map(|_| (rng.below(16) as u8, rng.below(nkeys), (rng.below(100) as i64) - 3)).collect();
+        if unit == "name_resolution" && it % 3 != 0 {
+            // focused scenarios: a small tree, then a caller function, an import that reaches something that exists
+            // (exactly, or one `super.` too many) and a call through that import
+            ops = (0..2 + rng.below(7)).map(|_| ([0u8, 0, 1, 1, 1, 2][rng.below(6) as usize], rng.below(24), 0i64)).collect();
+            ops.push((0, rng.below(4), 0));
+            ops.push((4, 0, 0));
+            ops.push((3, rng.below(600), 40 + rng.below(57) as i64));
+            ops.push((5, rng.below(64), 30 + rng.below(70) as i64));
+        }
         dispatch(unit, &ops, it);
     }
     println!("OK {} sequences without a difference", iters);
